@@ -3,6 +3,9 @@
 
   treecases.py audit            which case contexts do the deterministic cases of the quick tier reach, which only the
                                 seeded random sequences (5 seeds), which only a wider random pool
+  treecases.py extend [N]       keep the witness file and ADD witnesses for contexts no deterministic case reaches, from a pool of
+                                3*N targeted constructions: random sparse (Fibonacci-like) AVL shapes of height 4..8 built
+                                rotation-free by level-order insertion, then removals that shrink several levels in a row
   treecases.py regen [N]        choose (greedily, from a pool of 2*3*N random ins/rem sequences) witnesses for every context
                                 the deterministic cases do not reach and REWRITE tools/props/tree_witnesses.ops
 
@@ -222,6 +225,168 @@ def gen(rng, ty):
     return ["new %s" % ty] + ops
 
 
+def avl_shape(rng, h, sparse):
+    """a random AVL shape of height h as nested (left, right) / None; `sparse` = probability of taking the uneven split"""
+    if h == 0:
+        return None
+    if h == 1:
+        return (None, None)
+    r = rng.random()
+    if r < sparse / 2:
+        return (avl_shape(rng, h - 1, sparse), avl_shape(rng, h - 2, sparse))
+    if r < sparse:
+        return (avl_shape(rng, h - 2, sparse), avl_shape(rng, h - 1, sparse))
+    return (avl_shape(rng, h - 1, sparse), avl_shape(rng, h - 1, sparse))
+
+
+def bfs_keys(shape):
+    """in-order keys 2, 4, 6 … on the shape, listed level by level: inserting them in this order builds exactly the shape
+    without a single rotation (every prefix of a level order of an AVL shape is an AVL shape)"""
+    ctr = [0]
+    def lab(t):
+        if t is None:
+            return None
+        l = lab(t[0])
+        ctr[0] += 2
+        k = ctr[0]
+        return (l, k, lab(t[1]))
+    t = lab(shape)
+    out, level = [], [t]
+    while level:
+        nxt = []
+        for n in level:
+            if n is not None:
+                out.append(n[1])
+                nxt += [n[0], n[2]]
+        level = nxt
+    return out
+
+
+# ---- direct construction of a pair of consecutive AVL removal steps -------------------------------------------------------------
+def fibmin(h):
+    """a minimal AVL shape of height h (left-heavy everywhere)"""
+    return None if h <= 0 else (None, None) if h == 1 else (fibmin(h - 1), fibmin(h - 2))
+
+
+def mirror(t):
+    return None if t is None else (mirror(t[1]), mirror(t[0]))
+
+
+def with_bf(h, bf):
+    """an AVL shape of height h >= 1 whose root has balance factor bf (height left - height right)"""
+    if bf == 0:
+        return (fibmin(h - 1), fibmin(h - 1))
+    return (fibmin(h - 1), fibmin(h - 2)) if bf == 1 else (fibmin(h - 2), fibmin(h - 1))
+
+
+def shrinkable(h, target):
+    """a shape of height h that loses one level when the leaf `target` (a unique object) is removed"""
+    return target if h == 1 else (shrinkable(h - 1, target), fibmin(h - 2))
+
+
+def rot_site(step, below, hb, target):
+    """the subtree P in which `step` (a rotation context string such as L293,lc,inner,g+) happens when its short side `below`
+    (height hb before the removal, hb - 1 after) shrinks; returns (P, height of P before)"""
+    w = step.split(",")
+    left_branch = w[0] in ("L293", "L296")           # the shrinking node is the LEFT child
+    if w[0] in ("L293", "L316"):                     # double rotation: sibling leans towards the shrinking side, g = its inner child
+        g = with_bf(hb, {"g+": 1, "g-": -1, "g0": 0}[w[3]])
+        sib = (g, fibmin(hb - 1)) if left_branch else (fibmin(hb - 1), g)
+    else:                                            # single rotation: sibling even (bf0) or leaning away (bf1)
+        if w[3] == "bf0":
+            sib = (fibmin(hb), fibmin(hb))
+        else:
+            sib = (fibmin(hb - 1), fibmin(hb)) if left_branch else (fibmin(hb), fibmin(hb - 1))
+    return ((below, sib) if left_branch else (sib, below)), hb + 2
+
+
+def construct_pair(a, b):
+    """op list whose last removal performs step a and then, one level up, step b (both rotation contexts, a with `inner`)"""
+    target = [None, None]                            # a list: its own identity (equal tuples are shared by the compiler)
+    wa, wb = a.split(","), b.split(",")
+    hb = 1 if "noinner" in a else 3                  # height of the shrinking side below the first rotation
+    p1, h1 = rot_site(a, shrinkable(hb, target), hb, target)
+    p2, h2 = rot_site(b, p1, h1, target)
+    if (wa[1] == "lc") != (wb[0] in ("L293", "L296")):
+        return None                                  # a's position contradicts b's branch
+    top = p2 if wb[1] == "root" else (p2, fibmin(h2)) if wb[1] == "lc" else (fibmin(h2), p2)
+    ctr = [0]
+    found = []
+    def lab(t):
+        if t is None:
+            return None
+        l = lab(t[0])
+        ctr[0] += 2
+        k = ctr[0]
+        if t is target:
+            found.append(k)
+        return (l, k, lab(t[1]))
+    lt = lab(top)
+    out, level = [], [lt]
+    while level:
+        nxt = []
+        for n in level:
+            if n is not None:
+                out.append(n[1])
+                nxt += [n[0], n[2]]
+        level = nxt
+    return ["new avl"] + ["ins %d" % k for k in out] + ["rem %d" % found[0]]
+
+
+def gen_targeted(rng):
+    """minimal-ish (Fibonacci-like) AVL trees of height 4..8 built rotation-free, then removals: a removal on the short side
+    of a chain of uneven nodes shrinks level after level, each level with its own rotation kind"""
+    h = rng.choice([4, 5, 5, 6, 6, 6, 7, 7, 8])
+    keys = bfs_keys(avl_shape(rng, h, rng.choice([0.6, 0.8, 0.9, 1.0])))
+    ops = ["ins %d" % k for k in keys]
+    present = sorted(keys)
+    for _ in range(rng.choice([1, 1, 2, 3, 5])):
+        k = rng.choice(present)
+        present.remove(k)
+        ops.append("rem %d" % k)
+    return ["new avl"] + ops
+
+
+def pool_targeted(a, seeds, n):
+    pool = []
+    for seed in seeds:
+        rng = random.Random(seed)
+        cands = [gen_targeted(rng) for _ in range(n)]
+        recs = a.trace(cands)
+        i = 0
+        for c in cands:
+            k = len(c) - 1
+            pool.append((c, [feats(l) for l in recs[i:i + k]]))
+            i += k
+        assert i == len(recs)
+    return pool
+
+
+def greedy(pool, todo, build_free=False):
+    """witnesses (op list prefix, contexts gained) covering `todo`; the cost of a witness is its length (with build_free the
+    rotation-free build-up of a targeted tree counts only a little: it cannot be shortened)"""
+    chosen = []
+    while todo:
+        best = None
+        for ci, (c, fs) in enumerate(pool):
+            gain, bp = set(), None
+            for i, f in enumerate(fs):
+                g = f & todo
+                if g:
+                    gain |= g
+                    score = len(gain) / ((i / 8.0 if build_free else i) + 8.0)
+                    if bp is None or score > bp[0]:
+                        bp = (score, i, set(gain))
+            if bp and (best is None or bp[0] > best[0]):
+                best = (bp[0], ci, bp[1], bp[2])
+        if best is None:
+            break
+        _, ci, i, gain = best
+        chosen.append((pool[ci][0][:i + 2], sorted(gain)))
+        todo -= gain
+    return chosen
+
+
 def pool_of(a, seeds, n):
     pool = []
     for seed in seeds:
@@ -248,6 +413,47 @@ def main():
     try:
         import props.trees as trees
         regen = cmd == "regen"
+        if cmd == "extend":
+            # keep the witness file, add witnesses for contexts that neither it nor the other deterministic cases reach,
+            # from a pool of targeted AVL constructions (and the plain random pool)
+            n = int(sys.argv[2]) if len(sys.argv) > 2 else 4000
+            det, ex = deterministic(a.pv, trees, witnesses=True)
+            A = a.featset(det) | a.featset(ex)
+            pool = pool_targeted(a, (21, 22, 23), n) + pool_of(a, (31, 32, 33), n)
+            # every rule-consistent pair (rotation, then rotation one level up) that nothing reached so far: built directly
+            reached = A | set().union(*[f for c, fs in pool for f in fs])
+            steps = [f[len("avl-rem U "):] for f in reached if f.startswith("avl-rem U L") and f.count(",") == 3]
+            want = []
+            for x in steps:
+                wx = x.split(",")
+                if wx[3] == "bf0" or wx[1] == "root":
+                    continue                          # the loop ends after it
+                for y in steps:
+                    wy = y.split(",")
+                    if wy[2] == "inner" and (wx[1] == "lc") == (wy[0] in ("L293", "L296")) and "avl-rem B %s > %s" % (x, y) not in reached:
+                        want.append(construct_pair(x, y))
+            if want:
+                recs = a.trace(want)
+                i = 0
+                for c in want:
+                    k = len(c) - 1
+                    pool.append((c, [feats(l) for l in recs[i:i + k]]))
+                    i += k
+            print("direct constructions of rotation pairs: %d" % len(want))
+            seen = set().union(*[f for c, fs in pool for f in fs])
+            todo = seen - A
+            print("deterministic: %d contexts (%s); targeted pool %d trees reaches %d, new: %d (%s)" % (len(A), by_type(A), len(pool), len(seen), len(todo), by_type(todo)))
+            chosen = greedy(pool, set(todo), build_free=True)
+            path = os.path.join(HERE, "props", "tree_witnesses.ops")
+            txt = open(path).read().rstrip("\n").split("\n")
+            base = sum(1 for l in txt if l.startswith("new "))
+            out = txt + [""]
+            for i, (c, g) in enumerate(chosen):
+                out.append(("# %d (targeted AVL construction: level-order build, then removals): %s" % (base + i, "; ".join(g)))[:1500])
+                out += c + [""]
+            open(path, "w").write("\n".join(out))
+            print("added %d witnesses, %d ops" % (len(chosen), sum(len(c) - 1 for c, g in chosen)))
+            return 0
         det, ex = deterministic(a.pv, trees, witnesses=not regen)
         A = a.featset(det) | a.featset(ex)
         print("deterministic cases of the quick tier%s: %d contexts (%s)" % (" WITHOUT the witnesses" if regen else "", len(A), by_type(A)))
